@@ -880,6 +880,21 @@ def _run(ctx, case, name, kind):
         ctx.case_done(pub, True)
         return
     rec = stubs.RecordingProblem.attach(alg)
+    if name == "NaiveElimination" and case.get("L") is None:
+        # the default number of rounds is the one parameter read from the object: it must at least BE a count
+        # (a negative or non-integral value — ceil(-inf).astype(int) — means `round == L` can never become true)
+        try:
+            Lobj = alg.L
+            bad_L = (not np.isfinite(float(Lobj))) or float(Lobj) < 0 or float(Lobj) != int(Lobj)
+        except Exception:
+            bad_L = True
+        if bad_L:
+            viol(ctx, "naive-default-L-not-a-count", f"NaiveElimination's default number of sampling rounds is "
+                 f"{getattr(alg, 'L', None)!r}: not a non-negative integer, so no run_one_step() can ever report that "
+                 "the fixed number of rounds is used up (the run never terminates)", pub,
+                 detail={"K": case.get("K"), "L": repr(getattr(alg, "L", None))})
+            ctx.case_done(pub, True)
+            return
     cfg = cfg_str(case, alg)
     init_model = ctx.ask("init", cfg)
     parent = [0] if name == "VOGP_AD" else []
